@@ -57,6 +57,7 @@ class Mixed:
         self.live = set()
         self.files = set()
         self.nout = 0
+        self.seen = []           # (section, key) pairs some file of this history defines: the getters ask for them and for near misses
 
     def add(self, line, conv):
         self.script.append(line)
@@ -77,6 +78,12 @@ class Mixed:
         fnl = not (g["lines"] and g["lines"][-1] and self.r.random() < 0.25)
         self.add("file %s %s" % (hx(self.R + f), hx(file_bytes(g["lines"], fnl))), None)
         lines = g["lines"]
+        cur = None
+        for a in g["abs"]:
+            if a["t"] == "header":
+                cur = core.uncodes(a["key"])
+            elif a["t"] in ("entry", "keyonly") and len(self.seen) < 40:
+                self.seen.append((cur, core.uncodes(a["key"])))
         self.script.append("echo f")
         self.conv.append(lambda ev, root, f=f, lines=lines: [{"e": "file", "path": codes(f), "lines": lines}])
 
@@ -166,8 +173,29 @@ class Mixed:
         posts = self.r.choice([[], [".conf.d", "/alt.d"], [".d"], [".conf.d"], ["/alt.d", ".d", ".conf.d"]])
         self.add("setconfdirs " + " ".join(hx(x) for x in posts), lambda ev, root, posts=posts: [{"e": "setconfdirs", "dirs": [codes(x) for x in posts]}])
 
+    def pick_gk(self, keys):
+        """the (section, key) a getter asks for: a random pair of the small name pools, or - half of the time when files were
+        generated - a pair that a file of this history defines, with the section name as it is, in the bracketed form, or a near
+        miss of it (a proper prefix, an extension, the bracketed prefix): only the exact name (bare or bracketed) may find the key"""
+        if self.seen and self.r.random() < 0.5:
+            g, k = self.r.choice(self.seen)
+            x = self.r.random()
+            if g and "[" not in g and "]" not in g:
+                if x < 0.35:
+                    g = "[" + g + "]"
+                elif x < 0.45 and len(g) > 1:
+                    g = g[:-1].rstrip(" \t") or g
+                elif x < 0.55:
+                    g = g + "B"
+                elif x < 0.62 and len(g) > 1 and g[:-1].strip(" \t"):
+                    g = "[" + g[:-1].strip(" \t") + "]"
+            if self.r.random() < 0.1:
+                k = k + "2"
+            return g, k
+        return self.r.choice(SECS), self.r.choice(keys)
+
     def op_keys(self, h):
-        g = self.r.choice(SECS)
+        g = self.pick_gk(KEYS)[0]
         self.add("keys %d %s" % (h, hx(g)), lambda ev, root, h=h, g=g: [{"e": "keys", "h": h, "g": opt(g), "rc": ev["rc"], "out": [codes(x) for x in (ev.get("out") or [])]}])
 
     def op_groups(self, h):
@@ -187,7 +215,7 @@ class Mixed:
                  lambda ev, root, h=h, g=g, k=k, n=n, T=T: [{"e": "set", "T": T, "h": h, "g": opt(g), "k": opt(k), "v": [], "neg": n < 0, "mag": [int(c) for c in str(abs(n))], "rc": ev["rc"]}])
 
     def op_gettyped(self, h):
-        g, k = self.r.choice(SECS), self.r.choice(KEYS)
+        g, k = self.pick_gk(KEYS)
         T = self.r.choice(sorted(INTTYPES) + ["Bool"])
 
         def conv(ev, root, h=h, g=g, k=k, T=T):
@@ -203,7 +231,7 @@ class Mixed:
         self.add("get %s %d %s %s" % (T, h, hx(g), hx(k)), conv)
 
     def op_ext(self, h):
-        g, k = self.r.choice(SECS), self.r.choice(KEYS + ["a", "b", "k0", "k1"])
+        g, k = self.pick_gk(KEYS + ["a", "b", "k0", "k1"])
         self.add("ext %d %s %s" % (h, hx(g), hx(k)),
                  lambda ev, root, h=h, g=g, k=k: [{"e": "ext", "h": h, "g": opt(g), "k": opt(k), "rc": ev["rc"], "line": ev.get("line", 0),
                                                   "file": codes(self.rel(ev.get("file") or "", root)), "cb": codes(ev.get("cb") or ""), "ca": codes(ev.get("ca") or ""),
@@ -229,7 +257,7 @@ class Mixed:
                  lambda ev, root, h=h, g=g, k=k, v=v: [{"e": "set", "h": h, "g": opt(g), "k": opt(k), "v": opt(v), "rc": ev["rc"]}])
 
     def op_get(self, h):
-        g, k = self.r.choice(SECS), self.r.choice(KEYS + ["a", "b"])
+        g, k = self.pick_gk(KEYS + ["a", "b"])
         self.add("get String %d %s %s" % (h, hx(g), hx(k)),
                  lambda ev, root, h=h, g=g, k=k: [{"e": "get", "h": h, "g": opt(g), "k": opt(k), "rc": ev["rc"], "out": opt(ev.get("out"))}])
 
@@ -347,6 +375,7 @@ class Mixed:
 
 
 OPS = {   # every property exercises the root specification with the calls IT talks about (no misattributed alarms)
+    "C02": {"read", "get", "typed", "listings", "ext"},
     "C11": {"read", "new", "set", "get", "typed", "listings"},
     "C10": {"read", "new", "newoptonly", "set", "get", "merge", "write", "tags", "listings", "ext"},
     "C07": {"read", "new", "set", "get", "write", "tags", "typed"},
